@@ -72,6 +72,8 @@ func writeEvidence(a *agg, base uint64, wall float64, reported, known, parallel,
 			"reach_warnings":                 reach,
 			"known_findings_matched":         known,
 			"determinism_recheck":            determinismNote,
+			"degraded_free_daemons":          freeMode,
+			"unowned_runtime_choices":        a.unowned,
 			"fault_kinds_fired": map[string]int{
 				"preemption-at-instrumented-statement": a.preempts, "task-switch": a.switches,
 				"cold-start (first calls in a fresh process)": a.probes["cold-start-runs"],
